@@ -349,6 +349,13 @@ func (g *Gen) createOp() *Op {
 	case r.Chance(1, 3):
 		op.COpts = append(op.COpts, CreateOpt{Kind: "id", B: r.Bytes(16)})
 		g.count("create:id")
+		if r.Chance(1, 4) {
+			// the nil ID, given explicitly (with the zero time: the same image as the deterministic option makes)
+			op.COpts[len(op.COpts)-1].B = make([]byte, 16)
+			op.COpts = append(op.COpts, CreateOpt{Kind: "time", I: -62135596800})
+			det = true
+			g.count("create:explicit-nil-id-and-zero-time")
+		}
 	case r.Intn(1000) < g.p.Rejects/8:
 		op.COpts = append(op.COpts, CreateOpt{Kind: "id", Bad: true})
 		g.count("reject:baduuid")
